@@ -8,7 +8,7 @@ import (
 )
 
 // Extension for C28 / C51: fmt.Sprintf with a concrete format string and the verbs the key builders of spec/tun use
-// (%s of a string, %d / %v of an integer, %v of a string, %%). The result is exact: string arguments are spliced in
+// (%s of a string, %d / %v of an integer, %v of a string, %T, %%). The result is exact: string arguments are spliced in
 // byte for byte (symbolic bytes stay symbolic), integers are rendered by the engine's decimal formatter (exact for
 // concrete values, case split for symbolic values with few feasible values). Anything else (width/flags, other
 // verbs, other argument types) ends the path as unsupported.
@@ -41,6 +41,15 @@ func init() {
 				}
 				a, ok := va[ai].(Iface)
 				ai++
+				if ok && verb == 'T' {
+					// %T: the dynamic type, package-qualified by package name as fmt prints it
+					name := "<nil>"
+					if a.T != nil {
+						name = types.TypeString(a.T, func(p *types.Package) string { return p.Name() })
+					}
+					out = append(out, StrOf(name)...)
+					continue
+				}
 				if !ok || a.T == nil {
 					panic(unsupported("fmt.Sprintf: nil or non-interface argument"))
 				}
